@@ -3,7 +3,7 @@
    the extracted datatypes. *)
 From Coq Require Import ZArith List Floats.
 From Coq Require Import ExtrOcamlBasic ExtrOCamlFloats ExtrOCamlInt63.
-From SC Require Import Num Vec3 Kernel FloatIO Grid Integrator CellCycle Mesh Geometry Forces MeshOps Population Vtk Params Params_gen Output Contact Divider Init.
+From SC Require Import Num Vec3 Kernel FloatIO Grid Integrator CellCycle Mesh Geometry Forces MeshOps RefineLoop Population Vtk Params Params_gen Output Contact Divider Init.
 
 Definition kernel_f := kernel NumF.
 
@@ -60,6 +60,9 @@ Definition frc_bending_f := @apply_bending float NumF.
 (* C01/C11: replay of a remeshing trace *)
 Definition ops_replay_f := @replay float NumF.
 Definition ops_guards_f := @guards_ok float NumF.
+Definition loop_run_f := @refine_loop float NumF.
+Definition loop_log_f := @loop_log float NumF.
+Definition loop_nb_edges_f := @nb_edges float.
 
 (* C08: population bookkeeping *)
 Definition pop_init := init_pop.
@@ -109,7 +112,7 @@ Extraction "model.ml" NumF kernel_f
   geo_repair_f geo_tri_pos_f geo_normal_f geo_area_f geo_volume_f geo_total_area_f geo_centroid_f geo_aabb_f
   mesh_valid_surface_b mesh_valid_dump_b mesh_connected_b
   frc_refresh_f frc_pressure_f frc_tension_f frc_anglereg_f frc_bending_f
-  ops_replay_f ops_guards_f
+  ops_replay_f ops_guards_f loop_run_f loop_log_f loop_nb_edges_f
   pop_init pop_step pop_inv_b
   vtk_write vtk_read
   par_numerical par_cell_types par_translation_ok
